@@ -1,161 +1,13 @@
-(* State.has_comments.  options.py only ever writes the flag (four sites: _scan_to_next_token,
-   two in _scan_plain_scalar, _scan_block_scalar_ignored_line); parse_directive_options reads it
-   to emit the directive_comments warning.  The functions that set it (or call one that does)
-   are given here in an instrumented form that also returns the flag; [*_erase] shows that the
-   instrumented functions compute exactly what the functions of OptModel.v compute, so the flag
-   never influences pairs or errors.  Executable definitions first, proofs at the end. *)
+(* Erasure: the instrumented functions of OptCommentsDef.v compute exactly what the functions of
+   OptModel.v compute; State.has_comments never influences pairs or errors. *)
 From Coq Require Import List NArith Bool.
 From MV Require Import Base.PyStr.
 From MV Require Import Base.Res.
 From MV Require Import Gen.OptConsts.
 From MV Require Import Opt.OptModel.
+From MV Require Export Opt.OptCommentsDef.
 Import ListNotations.
 Open Scope N_scope.
-
-Fixpoint scan_to_next_token_f_cm (fuel : nat) (s : stream) (cm : bool) : res (stream * bool) :=
-  match fuel with
-  | O => Raise OutOfFuel
-  | S f =>
-      do s1 <- skip_while (fun ch => ch =? c_space) s;
-      do ch <- peek s1 0;
-      do s2 <- (if ch =? c_hash
-                then skip_while (fun ch => negb (mem_N ch in_scan_to_next_token_0)) s1
-                else Ok s1);
-      let cm' := cm || (ch =? c_hash) in                    (* state.has_comments = True *)
-      do sb <- scan_line_break s2;
-      let '(s3, lb) := sb in
-      if negb (nonempty lb) then Ok (s3, cm') else scan_to_next_token_f_cm f s3 cm'
-  end.
-
-Definition scan_to_next_token_cm (s : stream) : res (stream * bool) :=
-  do s0 <- (if s_idx s =? 0 then
-              do ch <- peek s 0; if ch =? c_bom then forward s 1 else Ok s
-            else Ok s);
-  scan_to_next_token_f_cm (fuel_of s0) s0 false.
-
-Fixpoint plain_scalar_f_cm (fuel : nat) (is_key : bool) (s : stream)
-         (chunks spaces : list str) : res (stream * list str * bool) :=
-  match fuel with
-  | O => Raise OutOfFuel
-  | S f =>
-      do ch <- peek s 0;
-      if ch =? c_hash then Ok (s, chunks, true)
-      else
-        do length <- plain_len is_key (s_rest s);
-        match length with
-        | O => Ok (s, chunks, false)
-        | _ =>
-            let chunks' := chunks ++ spaces ++ [prefix s length] in
-            do s1 <- forward s length;
-            do sp <- scan_plain_spaces s1 (negb is_key);
-            let '(s2, spaces') := sp in
-            let indent := if is_key then 0 else 1 in
-            match spaces' with
-            | [] => do ch2 <- peek s2 0; Ok (s2, chunks', ch2 =? c_hash)
-            | _ =>
-                do ch2 <- peek s2 0;
-                if (ch2 =? c_hash) || (s_col s2 <? indent) then Ok (s2, chunks', ch2 =? c_hash)
-                else plain_scalar_f_cm f is_key s2 chunks' spaces'
-            end
-        end
-  end.
-
-Definition scan_plain_scalar_cm (s : stream) (is_key : bool) : res (stream * str * bool) :=
-  do r <- plain_scalar_f_cm (fuel_of s) is_key s [] [];
-  let '(s', chunks, cm) := r in Ok (s', concat chunks, cm).
-
-Definition scan_block_scalar_ignored_line_cm (s : stream) : res (stream * bool) :=
-  do s1 <- skip_while (fun ch => ch =? c_space) s;
-  do ch <- peek s1 0;
-  do s2 <- (if ch =? c_hash
-            then skip_while (fun ch => negb (mem_N ch in_scan_block_scalar_ignored_line_0)) s1
-            else Ok s1);
-  do ch2 <- peek s2 0;
-  if negb (mem_N ch2 in_scan_block_scalar_ignored_line_1) then Raise (TokenizeError (s_idx s2))
-  else do sb <- scan_line_break s2; Ok (fst sb, ch =? c_hash).
-
-Definition scan_block_scalar_cm (s : stream) (style : N) : res (stream * str * bool) :=
-  let folded := style =? c_gt in
-  do s1 <- forward s 1;
-  do ind <- scan_block_scalar_indicators s1;
-  let '(s2, chomping, increment) := ind in
-  do ig <- scan_block_scalar_ignored_line_cm s2;
-  let '(s3, cm) := ig in
-  let min_indent := 1 in
-  do r <- (match increment with
-           | None =>
-               do x <- scan_block_scalar_indentation s3;
-               let '(s4, breaks, max_indent) := x in
-               Ok (s4, breaks, N.max min_indent max_indent)
-           | Some inc =>
-               let indent := min_indent + inc - 1 in
-               do x <- scan_block_scalar_breaks s3 indent;
-               let '(s4, breaks) := x in Ok (s4, breaks, indent)
-           end);
-  let '(s4, breaks, indent) := r in
-  do ac <- at_content s4 indent;
-  do r2 <- (match ac with
-            | Some ch => block_lines_f (fuel_of s4) folded indent s4 ch [] breaks
-            | None => Ok (s4, [], [], breaks)
-            end);
-  let '(s5, chunks, line_break, breaks') := r2 in
-  let chunks1 := match chomping with Some false => chunks | _ => chunks ++ [line_break] end in
-  let chunks2 := match chomping with Some true => chunks1 ++ breaks' | _ => chunks1 end in
-  Ok (s5, concat chunks2, cm).
-
-Definition flag0 {A} (r : res A) : res (A * bool) := do a <- r; Ok (a, false).
-
-Definition tok_iter_cm (s : stream) : wres (option stream * bool) :=
-  dow r1 <- liftw (scan_to_next_token_cm s);
-  let '(s1, cm1) := r1 in
-  dow ch <- liftw (peek s1 0);
-  if is_end ch then liftw (Ok (None, cm1))
-  else if negb (s_col s1 =? 0) then liftw (Raise (TokenizeError (s_idx s1)))
-  else
-    dow kr <- liftw (if mem_N ch in_tokenize_0 then flag0 (scan_flow_scalar s1 ch)
-                     else scan_plain_scalar_cm s1 true);
-    let '(s2, k, cm2) := kr in
-    dow _ <- yield (TKey k);
-    dow r3 <- liftw (scan_to_next_token_cm s2);
-    let '(s3, cm3) := r3 in
-    dow ch3 <- liftw (peek s3 0);
-    if negb (ch3 =? c_colon) then liftw (Raise (TokenizeError (s_idx s3)))
-    else
-      dow s4 <- liftw (forward s3 1);
-      dow _ <- yield TColon;
-      dow r5 <- liftw (scan_to_next_token_cm s4);
-      let '(s5, cm5) := r5 in
-      dow ch5 <- liftw (peek s5 0);
-      let cm := cm1 || cm2 || cm3 || cm5 in
-      if s_col s5 =? 0 then liftw (Ok (Some s5, cm))
-      else
-        dow vr <- liftw (if mem_N ch5 in_tokenize_1 then scan_block_scalar_cm s5 ch5
-                         else if mem_N ch5 in_tokenize_2 then flag0 (scan_flow_scalar s5 ch5)
-                         else scan_plain_scalar_cm s5 false);
-        let '(s6, v, cm6) := vr in
-        dow _ <- yield (TValue (s_idx s5) v);
-        liftw (Ok (Some s6, cm || cm6)).
-
-Fixpoint tokenize_f_cm (fuel : nat) (s : stream) (cm : bool) : list token * option exn * bool :=
-  match fuel with
-  | O => ([], Some OutOfFuel, cm)
-  | S f =>
-      match tok_iter_cm s with
-      | (ts, Raise e) => (ts, Some e, cm)
-      | (ts, Ok (None, c)) => (ts, None, cm || c)
-      | (ts, Ok (Some s', c)) =>
-          let '(ts', e, c') := tokenize_f_cm f s' (cm || c) in (ts ++ ts', e, c')
-      end
-  end.
-
-(* options_to_items: (pairs, state.has_comments) *)
-Definition options_to_items_state (text : str) : res (list (str * str) * bool) :=
-  let s := new_stream text in
-  let '(toks, pending, cm) := tokenize_f_cm (fuel_of s) s false in
-  do items <- to_items toks pending None; Ok (items, cm).
-
-Definition has_comments (text : str) : bool :=
-  match options_to_items_state text with Ok (_, cm) => cm | Raise _ => false end.
 
 (* ------------------------------------------------------------------ erasure *)
 
